@@ -2,12 +2,14 @@ import Driver.Util
 import Driver.C05
 import Driver.C18
 import Driver.C16
+import Driver.C04
 open Driver
 
 def dispatch (op : String) (args : List String) (obs : String) : Option Verdict :=
   (Driver.C05.handle op args obs)
   <|> (Driver.C18.handle op args obs)
   <|> (Driver.C16.handle op args obs)
+  <|> (Driver.C04.handle op args obs)
 
 def processLine (line : String) : String :=
   let line := line.trimRight
